@@ -188,6 +188,104 @@ def scenario(e, cfg, base=None):
             ctx.__exit__(None, None, None)
 
 
+class ReaderView:
+    """A reader whose file reads happen at two instants of the writer's timeline: reads number < switch_at see the
+    directory as it was at instant k1, later reads see it at instant k2 >= k1."""
+
+    def __init__(self, view_root, snap_dir, k1, k2, switch_at):
+        self.view_root, self.snap_dir = str(view_root), str(snap_dir)
+        self.k1, self.k2, self.switch_at = k1, k2, switch_at
+        self.reads = 0
+
+    def _map(self, file):
+        import os
+        p = os.fspath(file) if not isinstance(file, int) else None
+        if p is None or not os.path.abspath(p).startswith(self.view_root):
+            return file
+        k = self.k1 if self.reads < self.switch_at else self.k2
+        self.reads += 1
+        return os.path.join(self.snap_dir, str(k)) + os.path.abspath(p)[len(self.view_root):]
+
+    def __enter__(self):
+        import builtins
+        import io
+        self._saved = (builtins.open, io.open)
+        real = io.open
+
+        def opener(file, mode="r", *a, **k):
+            return real(self._map(file) if not any(c in mode for c in "wax+") else file, mode, *a, **k)
+        builtins.open = opener
+        io.open = opener
+        return self
+
+    def __exit__(self, *a):
+        import builtins
+        import io
+        builtins.open, io.open = self._saved
+        return False
+
+
+def reader_scenario(e, cfg, base):
+    """Concurrent reader at two instants (thorough tier)."""
+    from sedpack.io import Dataset
+    common.import_sedpack()
+    pristine, committed, total, tmpdir, snap_dir, full_reads = base
+    k1 = e.choice("reader_instant_1", total + 1)
+    if cfg.get("full_advance"):
+        k2 = k1 + e.choice("reader_advance", total + 1 - k1)
+    else:  # quick tier: stay at the instant, move one effect ahead, or see the finished session
+        k2 = [k1, min(k1 + 1, total), total][e.choice("reader_advance_kind", 3)]
+    switch = 1 + e.choice("reads_before_advance", max(full_reads, 1))
+    attempted = {"train": [10, 11, 12], "test": [13]}
+    view = Path(tmpdir) / "view"
+    what = f"{cfg['ft']}/{cfg['kind']}: reader does its first {switch} file reads at writer instant {k1}, the rest at instant {k2}"
+    if not (Path(snap_dir) / str(k1) / "dataset_info.json").is_file():
+        return dict(skipped="no dataset yet at the first instant")
+    rv = ReaderView(view, snap_dir, k1, k2, switch)
+    try:
+        with rv:
+            d = Dataset(view)
+            got = {}
+            for split in ("train", "test"):
+                if split in d._dataset_info.splits:
+                    got[split] = fillerlab.read_split(d, split)
+    except Exception as exc:  # noqa: BLE001
+        e.fail(f"{what}: raised {type(exc).__name__}: {str(exc)[:100]}", dict(kind="concurrent-reader-fails"))
+    for split in ("train", "test"):
+        g = got.get(split, [])
+        missing = [v for v in committed[split] if v not in g]
+        foreign = [v for v in g if v not in committed[split] and v not in attempted[split]]
+        dup = [v for v in set(g) if g.count(v) > 1]
+        e.prove(not missing, f"{what}: committed examples {missing} of {split} not returned (got {g})", dict(kind="concurrent-reader-loses-committed-data"))
+        e.prove(not foreign and not dup, f"{what}: {split} returns unwritten/duplicate examples {foreign} {dup}", dict(kind="concurrent-reader-foreign-examples"))
+    return dict(k1=k1, k2=k2, switch=switch, reads=rv.reads)
+
+
+def _reader_cell(cell):
+    common.import_sedpack()
+    from sedpack.io import Dataset
+    with common.scratch_dir("vt06r_") as tmp:
+        with common.scratch_dir("vt06b_") as btmp:
+            root0, committed = committed_state(btmp, cell["ft"], cell["kind"])
+            work = tmp / "work"
+            shutil.copytree(root0, work)
+        snap = tmp / "snap"
+        snap.mkdir()
+        fx = fsx.Fsx(work)
+        fx.snapshot_to = str(snap)
+        with fx:
+            crashing_session(work, cell["ft"], cell["kind"])
+        shutil.copytree(work, snap / str(fx.counter))
+        # how many file reads a full pass takes (at the final state)
+        rv = ReaderView(tmp / "view", snap, fx.counter, fx.counter, 10 ** 9)
+        with rv:
+            d = Dataset(tmp / "view")
+            for split in d._dataset_info.splits:
+                fillerlab.read_split(d, split)
+        base = (None, committed, fx.counter, tmp, snap, rv.reads)
+        return explore(lambda e: reader_scenario(e, cell, base))
+
+
 def _kind_of(problems):
     if not problems:
         return "ok"
@@ -205,6 +303,8 @@ def _kind_of(problems):
 
 def _cell(cell):
     common.import_sedpack()
+    if cell.get("reader"):
+        return _reader_cell(cell)
     with common.scratch_dir("vt06_") as tmp:
         with common.scratch_dir("vt06b_") as btmp:
             root0, committed = committed_state(btmp, cell["ft"], cell["kind"])
@@ -222,7 +322,12 @@ def _cell(cell):
 
 def cells(tier):
     fts = ["fb", "npz"]
-    return [dict(ft=ft, kind=k) for ft in fts for k in KINDS]
+    out = [dict(ft=ft, kind=k) for ft in fts for k in KINDS]
+    if tier == "thorough":
+        out += [dict(ft=ft, kind=k, reader=True, full_advance=True) for ft in fts for k in KINDS]
+    else:
+        out += [dict(ft="fb", kind="continue-root", reader=True)]
+    return out
 
 
 def run(tier, seed):
